@@ -52,7 +52,7 @@ impl FromPrimitive for binary::Command {
 //@include lemmas/framing.rs
 
 impl MemcacheBinaryCodec {
-    const HEADER_LEN: usize = 24;
+//@consts protocol/binary_codec.rs | impl MemcacheBinaryCodec
 
 //@fn protocol/binary_codec.rs | impl MemcacheBinaryCodec | new | ret=r | safety=C10
 //@contract codec_new.contract
